@@ -241,7 +241,8 @@ fn host_conn(name: String, mut s: TcpStream) {
             Ok(Some(p)) => {
                 let id = header_get(&p.headers, "x-verif-id").unwrap_or("").to_string();
                 parsed_bytes += p.total_len;
-                verif::trace::emit(json!({"e": "HostRecv", "host": name, "hconn": hconn, "id": id,
+                let now_ms = std::time::SystemTime::now().duration_since(std::time::UNIX_EPOCH).map(|d| d.as_millis() as u64).unwrap_or(0);
+                verif::trace::emit(json!({"e": "HostRecv", "host": name, "hconn": hconn, "id": id, "t": now_ms,
                     "method": p.method, "target": p.target, "version": p.version,
                     "headers": headers_json(&p.headers), "bodyLen": p.body.len(), "bodySha": sha256_hex(&p.body),
                     "bodyHex": if p.body.len() <= 256 { hex::encode(&p.body) } else { String::new() },
@@ -436,6 +437,7 @@ struct Rig {
     proxy_addr: SocketAddr,
     conns: Mutex<HashMap<String, Arc<Mutex<ClientConn>>>>,
     helpers: Mutex<HashMap<String, std::process::Child>>,
+    ports: Mutex<HashMap<String, u16>>, // source port of every connection ever made (for explicit port reuse)
 }
 
 impl Rig {
@@ -497,7 +499,10 @@ impl Rig {
             }
             "connect" => {
                 let conn = st["conn"].as_str().unwrap().to_string();
-                let want_port = st["port"].as_u64().unwrap_or(0) as u16;
+                let mut want_port = st["port"].as_u64().unwrap_or(0) as u16;
+                if let Some(other) = st["port_of"].as_str() {
+                    want_port = self.ports.lock().unwrap().get(other).copied().unwrap_or(0);
+                }
                 let (s, port) = match client_socket(want_port, self.proxy_addr) {
                     Ok(x) => x,
                     Err(e) => {
@@ -525,6 +530,7 @@ impl Rig {
                         },
                     );
                 }
+                let lookups_before = verif::audit::lookups(port);
                 if let Err(e) = client_connect(&s, self.proxy_addr) {
                     verif::trace::emit(json!({"e": "ConnectError", "conn": conn, "err": e}));
                     return;
@@ -532,6 +538,17 @@ impl Rig {
                 let _ = s.set_nodelay(true);
                 let _ = s.set_read_timeout(Some(Duration::from_millis(st["timeout_ms"].as_u64().unwrap_or(20000))));
                 verif::trace::emit(json!({"e": "Connect", "conn": conn, "port": port, "attributed": !st["attr"].is_null()}));
+                self.ports.lock().unwrap().insert(conn.clone(), port);
+                if st["wait"].as_bool().unwrap_or(false) {
+                    // wait until the proxy's accept path has looked this source port up
+                    let t0 = std::time::Instant::now();
+                    while verif::audit::lookups(port) == lookups_before && t0.elapsed() < Duration::from_secs(3) {
+                        std::thread::sleep(Duration::from_micros(200));
+                    }
+                    if verif::audit::lookups(port) == lookups_before {
+                        verif::trace::emit(json!({"e": "AcceptTimeout", "conn": conn}));
+                    }
+                }
                 self.conns.lock().unwrap().insert(conn, Arc::new(Mutex::new(ClientConn { stream: s, buf: Vec::new(), port })));
             }
             "wait_accepted" => {
@@ -685,6 +702,29 @@ impl Rig {
                 }
                 verif::trace::emit(json!({"e": "Arrived", "label": label, "n": verif::sched::arrived(label), "want": n}));
             }
+            "own_call" => {
+                // the agent's own host calls, signed by the builder route (hyper_client::build_request)
+                let kind = st["kind"].as_str().unwrap_or("goalstate").to_string();
+                let kk = self.shared.get_key_keeper_shared_state();
+                verif::trace::emit(json!({"e": "OwnCall", "kind": kind, "tag": st["tag"]}));
+                let ok = self.rt.block_on(async {
+                    match kind.as_str() {
+                        "goalstate" => crate::host_clients::wire_server_client::WireServerClient::new("168.63.129.16", 80, kk)
+                            .get_goalstate()
+                            .await
+                            .is_ok(),
+                        "sharedconfig" => crate::host_clients::wire_server_client::WireServerClient::new("168.63.129.16", 80, kk)
+                            .get_shared_config(st["url"].as_str().unwrap_or("http://168.63.129.16:80/machine/x?comp=config&type=sharedConfig&incarnation=1").to_string())
+                            .await
+                            .is_ok(),
+                        _ => crate::host_clients::imds_client::ImdsClient::new("169.254.169.254", 80, kk)
+                            .get_imds_instance_info()
+                            .await
+                            .is_ok(),
+                    }
+                });
+                verif::trace::emit(json!({"e": "OwnCallDone", "kind": kind, "tag": st["tag"], "ok": ok}));
+            }
             "sleep" => std::thread::sleep(Duration::from_millis(st["ms"].as_u64().unwrap_or(1))),
             "mark" => {
                 verif::trace::emit(json!({"e": "Mark", "tag": st["tag"]}));
@@ -801,6 +841,7 @@ pub fn main() -> i32 {
         proxy_addr,
         conns: Mutex::new(HashMap::new()),
         helpers: Mutex::new(HashMap::new()),
+        ports: Mutex::new(HashMap::new()),
     });
     let steps = script["steps"].as_array().cloned().unwrap_or_default();
     let r2 = rig.clone();
